@@ -10,12 +10,15 @@ def t3(rep, tier, seed):
     N, V, K = (5, 5, 4) if tier == "quick" else (6, 7, 5)
     ms = list(H.multisets(N, V))
     rnd = [[rng.randint(0, 100) for _ in range(rng.randint(4, 9))] for _ in range(60 if tier == "quick" else 1000)]
-    bound = f"all multisets n<={N} of 0..{V} x numbins 1..{K} + seeded random n<=9; OPT = exhaustive minimum over all assignments; planted equal-sum instances up to 120 items"
+    bound = f"all multisets n<={N} of 0..{V} x numbins 1..{K} + seeded random n<=9 + two or three runs of equal values (6..8 items, 3..4 bins); OPT = exhaustive minimum over all assignments; planted equal-sum instances up to 120 items"
     for algo in ("greedy", "kk", "roundrobin", "multifit"):
         dom = [{"algo": algo, "values": v, "k": k} for v in ms for k in range(1, K + 1)]
         dom += [{"algo": algo, "values": v, "k": k} for v in rnd for k in (2, 3, 4)]
         # the guarantees are about values: named items whose names (shuffled integers / strings) are unrelated to the values
         dom += [{"algo": algo, "values": v, "k": k, "fmt": f} for v in ms[::3] for k in (2, 3) for f in ("intdict", "names")]
+        # runs of equal values (a smaller run back-filling the bins a larger run opened): 6..8 items in two or three runs
+        runs = [[a] * c1 + [b] * c2 + [c] * c3 for a in (2, 3, 7, 20) for b in (1, 3, 10) for c in (1,) for c1 in (3, 4) for c2 in (3, 4) for c3 in (0, 1) if a > b and c1 + c2 + c3 <= 8]
+        dom += [{"algo": algo, "values": v, "k": k} for v in runs for k in (3, 4)]
         if algo == "multifit":      # the bound is 1.22 + 2^-iterations for the requested number of iterations, not only the default
             dom += [{"algo": algo, "values": v, "k": k, "iterations": i} for v in ms for k in (2, 3) for i in (1, 2, 3)]
         rep.add(H.run_case(f"C08/T3/{algo}/guarantees", f"prtpy.partitioning::{algo}", T.c08_case, dom, bound))
